@@ -914,13 +914,37 @@ class Item:
         par = bo + h.start() + self.m[bo + h.start():bo + h.end()].index("(")
         close = match_brace(self.m, par, "(", ")")
         bs = bo + h.end()
-        if re.search(r"\breturn\b", self.m[bs:close]):
-            raise Undecided("R3 or-else-expr: the closure body returns early")
+        if re.search(r"\breturn\b|\?", self.m[bs:close]):
+            raise Undecided("R3 or-else-expr: the closure body leaves early (return / ?)")
         s0 = self._chain_start(bo + h.start())
         sfx = "" if k == 1 else str(k)
-        self.rewrite(s0, s0, "{ let vx_oe%s = " % sfx, "R3-or-else-expr")
+        self.rewrite(s0, s0, "({ let vx_oe%s = " % sfx, "R3-or-else-expr")
         self.rewrite(bo + h.start(), bs, ";\n  if vx_oe%s.is_some() { vx_oe%s } else { " % (sfx, sfx), "R3-or-else-expr")
-        self.rewrite(close, close + 1, " } }", "R3-or-else-expr")
+        self.rewrite(close, close + 1, " } })", "R3-or-else-expr")
+
+    def r3_hof_apply_expr(self, fn, k):
+        """expression `RECV.HOF(|P| BODY)` where HOF is a small higher-order method of the unit whose PROVED contract says
+        "looks one value up; if found returns Some(func(value)), else None" (ReferentRule::eval_local / eval_global) and the closure
+        captures `&mut` state  ==>  match RECV.vx_HOF_arg() { Some(P) => Some(BODY), None => None }
+        (the call is replaced by what its proved contract says it does; the lookup half is the trusted shim vx_HOF_arg with the same
+        lookup contract; BODY stays in place and is no longer a closure).  The method names come from `hofnames <fn> "HOF1,HOF2"`."""
+        names = getattr(self, "hof_names", {}).get(fn)
+        if not names:
+            raise Undecided("R3 hof-apply-expr: no hofnames for fn %s" % fn)
+        k0, _, bo, end, _ = self.fn_span(fn)
+        hits = list(re.finditer(r"\.\s*(%s)\s*\(\s*\|" % "|".join(re.escape(n) for n in names), self.m[bo:end]))
+        if len(hits) < k:
+            raise Undecided("LOST-ANCHOR: R3 hof-apply-expr #%d in fn %s of %s" % (k, fn, self.where()))
+        h = hits[k - 1]
+        name = h.group(1)
+        par = bo + h.start() + self.m[bo + h.start():bo + h.end()].index("(")
+        p, bs, be, close = self._closure_after(par)
+        if re.search(r"\breturn\b|\?", self.m[bs:be]):
+            raise Undecided("R3 hof-apply-expr: the closure body leaves early (return / ?)")
+        self.rewrite(bo + h.start(), bs, ".vx_%s_arg() { Some(%s) => Some(" % (name, p), "R3-hof-apply")
+        s0 = self._chain_start(bo + h.start())
+        self.rewrite(s0, s0, "match ", "R3-hof-apply")
+        self.rewrite(be, close + 1, "), None => None }", "R3-hof-apply")
 
     def r3_position_expr(self, fn, k):
         """tail expression `RECV.iter().position(|P| BODY)`  ==>  index loop returning the first index whose BODY holds:
@@ -1506,6 +1530,9 @@ def build_unit(unit_path, repo=REPO):
                 # loopinit <fn> "<type>" "<initial value>": for R3 let-loop-break
                 it.loop_init = getattr(it, "loop_init", {})
                 it.loop_init[args[0]] = (args[1], args[2])
+            elif name == "hofnames":
+                it.hof_names = getattr(it, "hof_names", {})
+                it.hof_names[args[0]] = [x.strip() for x in args[1].split(",")]
             elif name == "liftR4":
                 # liftR4 <fn> "<old>" "<new>": an R4 redirection applied inside the closure body that lift-filter-map lifts
                 it.lift_r4 = getattr(it, "lift_r4", {})
